@@ -837,6 +837,57 @@ fn main() {
             }
         }
     }
+    // ============================================================ UninitVec::set (mutation campaign M3)
+    // the CHECKED single-slot write of an owned uninitialised buffer (uninit.rs:32-40): buffer length 0..5 x index 0..=len+2.
+    // In range: Ok and exactly that slot written; at or past the end: Err and NO uset call (a `<=` for the `<` is a write one
+    // slot past the allocation, in safe code).  On a recording buffer (every uset logged, bound-protected) and on the library's
+    // Vec<MaybeUninit<i64>> with one spare, sentinel-filled slot of capacity behind the end that must stay untouched.
+    struct RecUninit { slots: Vec<i64>, log: Vec<(usize, i64)> }
+    impl GetLen for RecUninit {
+        fn len(&self) -> usize { self.slots.len() }
+    }
+    impl UninitVec<i64> for RecUninit {
+        type Vec = Dflt<i64>;
+        unsafe fn assume_init(self) -> Dflt<i64> { Dflt(self.slots) }
+        unsafe fn uset(&mut self, idx: usize, v: i64) {
+            self.log.push((idx, v));
+            if idx < self.slots.len() { self.slots[idx] = v }
+        }
+    }
+    let slen = if thorough { 8usize } else { 5 };
+    for len in 0..=slen {
+        for idx in 0..=len + 2 {
+            let v = 11 * idx as i64 - 3;
+            let class = if idx < len { "inside" } else if idx == len { "at_end" } else { "past_end" };
+            let nt = if len == 0 { " nt=0" } else { "" };
+            let tg = |buf: &str| format!("fn=uninit_set buf={} class={} len={}{}", buf, class, len, nt);
+            let ds = |buf: &str| format!("fn=uninit_set buf={} buflen={} idx={} v={}", buf, len, idx, v);
+            em.case("exact", &tg("rec"), &ds("rec"), || format!("(run_uninit_set {} {} ({}))", coq_nat(len), coq_nat(idx), v), || {
+                let mut b = RecUninit { slots: vec![SENT; len], log: vec![] };
+                let r = guarded(AssertUnwindSafe(|| UninitVec::set(&mut b, idx, v)));
+                let mut c = vec![status_cell(r)];
+                for (i, w) in &b.log {
+                    c.push(Cell::Int(*i as i128));
+                    c.push(Cell::Int(*w as i128));
+                }
+                c.push(Cell::Sep);
+                c.extend(slot_cells(&b.slots));
+                c
+            });
+            em.case("exact", &tg("vec"), &ds("vec"), || format!("(run_uninit_set_buf {} {} ({}))", coq_nat(len), coq_nat(idx), v), || {
+                let mut u: Vec<MaybeUninit<i64>> = Vec::with_capacity(len + 1);
+                for _ in 0..len { u.push(MaybeUninit::new(SENT)) }
+                u.spare_capacity_mut()[0] = MaybeUninit::new(MaybeUninit::new(SENT));
+                let r = guarded(AssertUnwindSafe(|| UninitVec::set(&mut u, idx, v)));
+                let guard = unsafe { u.spare_capacity_mut()[0].assume_init().assume_init() };
+                let mut c = vec![status_cell(r), Cell::Sep];
+                c.extend(slot_cells(&unsafe { u.assume_init() }));
+                c.push(Cell::Sep);
+                c.extend(slot_cells(&[guard]));
+                c
+            });
+        }
+    }
     // ============================================================ Vec1Mut: get_mut / apply_mut_with; sort_unstable_by
     fn wrapped_deque(xs: &[i64], rot: usize) -> VecDeque<i64> {
         let mut d: VecDeque<i64> = VecDeque::with_capacity(xs.len().max(1));
